@@ -127,6 +127,20 @@ FEATURES: dict[str, float] = {
     "dup_init_is_input": 0.20,  # an initializer that is ALSO a graph input, listed before an identical plain initializer
     "fn_called_from_subgraph": 0.20,  # a function whose only call sits in an If branch / Loop body (of another function's body)
 }
+# features that are drawn only on request (``extra=True`` in choose_features / model_from_seed / gen_model /
+# gen_checked): the default feature draw - and so every existing user of this module - is unchanged
+EXTRA_FEATURES: dict[str, float] = {
+    # a chain of functions handing an attribute parameter down by reference under a DIFFERENT parameter name at each
+    # level (``G<slope = @a>``, crosswise ``G<a = @b, b = @a>``), used on operator attributes that have a default
+    "fn_attr_forward_renamed": 0.22,
+    # functions are separate name spaces: node outputs inside the control flow of a function body, its top-level
+    # values and its formal inputs/outputs are named like values in use where the function is called (actual
+    # arguments, call outputs, earlier/later values, graph inputs/initializers, names local to sibling subgraphs)
+    "fn_scope_name_reuse": 0.25,
+    # the same for what a nested body of the function DECLARES: Loop-body inputs and subgraph initializers
+    "fn_subgraph_formal_name_reuse": 0.12,
+}
+ALL_FEATURES: dict[str, float] = {**FEATURES, **EXTRA_FEATURES}
 _FN_FEATURES = ("fn", "fn_attr", "fn_default_used", "fn_nested", "fn_overload")
 DUPLICATE_FEATURES = frozenset(
     {"cse_rename_shadow", "near_dup_const_rank", "dup_init_is_input", "dup_expr", "near_dup_attr", "near_dup_outcount", "near_dup_default", "signed_zero", "dup_init",
@@ -215,7 +229,7 @@ class _Builder:
     def __init__(self, seed: int, size: int, feats: Iterable[str]):
         self.seed, self.size = seed, max(2, int(size))
         self.feats = set(feats)
-        unknown = self.feats - set(FEATURES)
+        unknown = self.feats - set(ALL_FEATURES)
         if unknown:
             raise ValueError(f"unknown features {sorted(unknown)}")
         self.rng = random.Random(f"{seed}:base")
@@ -575,9 +589,14 @@ class _Builder:
 
     # ---- model-local functions -----------------------------------------------------------------
     def gen_function(self, rng, name: str | None = None, overload: str = "", domain: str = FN_DOMAIN,
-                     body_hook=None, in_types=None, with_attrs: bool | None = None) -> _Fn:
+                     body_hook=None, in_types=None, with_attrs: bool | None = None, attrs: dict | None = None) -> _Fn:
+        """``attrs`` (name -> (kind, default)) declares exactly these attribute parameters (then ``body_hook`` is
+        expected to use them); otherwise ``with_attrs`` / the planted features decide about 'alpha' and 'k'."""
         in_types = in_types or ([(F32, (2, 3))] if rng.random() < 0.6 else [(F32, (2, 3)), rng.choice([(F32, (2, 3)), (I64, (2, 3)), (F32, ())])])
-        attrs: dict = {}
+        if attrs is not None:
+            attrs, with_attrs = dict(attrs), False
+        else:
+            attrs = {}
         if with_attrs if with_attrs is not None else (("fn_attr" in self.feats or "fn_default_used" in self.feats) and rng.random() < 0.8):
             attrs["alpha"] = ("f", rng.choice([None, 0.5, 2.0, 2.0]))
             if rng.random() < 0.5:
@@ -921,6 +940,224 @@ class _Builder:
             self.observe += self.gen_loop(m, rng, v0=x, body_hook=lambda b, v_in: self.gen_call(
                 b, rng, callee, inputs=[v_in], typed=True)[0])
 
+    # operator attributes that HAVE a default: a reference that is resolved wrongly (or not at all) still gives a
+    # loadable model that computes something else
+    _DEFAULTED_FLOAT_ATTRS = (("LeakyRelu", "alpha"), ("Elu", "alpha"), ("ThresholdedRelu", "alpha"), ("Celu", "alpha"),
+                              ("HardSigmoid", "alpha"), ("HardSigmoid", "beta"), ("Selu", "gamma"), ("Selu", "alpha"))
+
+    def plant_fn_attr_forward_renamed(self, rng):
+        """A chain main -> F_top -> ... -> F_leaf (2-3 functions).  Every level declares 1-2 float attribute
+        parameters (sometimes an int one as well) and hands them to the next level BY REFERENCE, under parameter
+        names that differ from level to level (or are the same names crosswise: ``G<a = @b, b = @a>``); the leaf uses
+        them on operator attributes that have defaults (sometimes inside an If branch of its body, sometimes through
+        ``Constant<value_float = @p>``).  Intermediate levels may use a parameter themselves and may pass one
+        parameter as a literal; the leaf / an intermediate function may also be called from the main graph."""
+        dec = random.Random(rng.random())  # variant decisions: independent of pool sizes
+        m = self.main
+        depth = dec.choice([2, 2, 2, 3])
+        n_float = dec.choice([1, 2, 2])
+        with_int = dec.random() < 0.3
+        in_branch = dec.random() < 0.25
+        words = ["a", "b", "slope", "gain", "alpha", "beta", "p", "q", "scale", "bias"]
+        in_types = [(F32, (2, 3))] + ([(BOOL, ())] if in_branch else [])
+        FLOAT, INT = ir.AttributeType.FLOAT, ir.AttributeType.INT
+
+        def declared(names) -> dict:
+            d = {n: ("f", None) for n in names}
+            if with_int:
+                d["axis_" + names[0]] = ("i", None)
+            return d
+
+        # ---- the leaf
+        names = dec.sample(words, n_float)
+        uses = [dec.choice(self._DEFAULTED_FLOAT_ATTRS) if dec.random() < 0.8 else ("Constant", "value_float") for _ in names]
+
+        def use_all(s, cur, names, uses):
+            for an, (op, attr) in zip(names, uses):
+                ref = ir.RefAttr(attr, an, FLOAT)
+                if op == "Constant":
+                    c = self.emit(s, "Constant", [], {attr: ref}, [(F32, ())])[0]
+                    cur = self.emit(s, "Mul", [cur, c], typed=s.kind == "branch")[0]
+                else:
+                    cur = self.emit(s, op, [cur], {attr: ref}, typed=s.kind == "branch")[0]
+            if with_int:
+                cur = self.emit(s, "Softmax", [cur], {"axis": ir.RefAttr("axis", "axis_" + names[0], INT)}, typed=s.kind == "branch")[0]
+            return cur
+
+        def leaf_body(s, names=names, uses=uses):
+            x = s.inputs[0]
+            if not in_branch:
+                return [use_all(s, x, names, uses)]
+            hooks = [lambda b: [use_all(b, x, names, uses)], lambda b: [self.emit(b, "Neg", [x], typed=True)[0]]]
+            if dec.random() < 0.3:
+                hooks.reverse()
+            return [self.gen_if(s, rng, then_hook=hooks[0], else_hook=hooks[1], out_types=[(F32, (2, 3))])[0]]
+        chain = [self.gen_function(rng, in_types=in_types, attrs=declared(names), body_hook=leaf_body)]
+        level_names = [names]
+
+        # ---- the callers, bottom-up
+        for _ in range(depth - 1):
+            callee, callee_names = chain[-1], level_names[-1]
+            r = dec.random()
+            if r < 0.2:
+                names = list(callee_names)  # the same names ...
+            elif r < 0.45 and n_float == 2:
+                names = list(callee_names)
+            else:
+                names = dec.sample(words, n_float)  # ... or others (may overlap partly)
+            # which of the caller's parameters feeds the callee's parameter i
+            perm = list(range(n_float))
+            if n_float == 2 and (dec.random() < 0.5 or (r >= 0.2 and r < 0.45)):
+                perm.reverse()
+            literal = dec.randrange(n_float) if n_float == 2 and dec.random() < 0.25 else None
+            own_use = dec.choice(self._DEFAULTED_FLOAT_ATTRS) if dec.random() < 0.4 else None
+            forwarded = {}
+            for i, cn in enumerate(callee_names):
+                forwarded[cn] = dec.choice([0.75, 1.25, -0.5]) if i == literal else ir.RefAttr(cn, names[perm[i]], FLOAT)
+            if with_int:
+                forwarded["axis_" + callee_names[0]] = ir.RefAttr("axis_" + callee_names[0], "axis_" + names[0], INT)
+
+            def body(s, callee=callee, forwarded=forwarded, names=names, own_use=own_use):
+                x = s.inputs[0]
+                t = self.emit(s, dec.choice(["Neg", "Abs"]), [x])[0]
+                if own_use is not None:
+                    t = self.emit(s, own_use[0], [t], {own_use[1]: ir.RefAttr(own_use[1], dec.choice(names), FLOAT)})[0]
+                y = self.gen_call(s, rng, callee, attr_values=forwarded, inputs=[t] + list(s.inputs[1:]))[0]
+                return [self.emit(s, "Add", [y, x])[0]]
+            chain.append(self.gen_function(rng, in_types=in_types, attrs=declared(names), body_hook=body))
+            level_names.append(names)
+
+        # ---- call sites in the main graph: concrete, pairwise different values
+        x = self._x(rng)
+        extra = [self.bool_scalar(m, rng)] if in_branch else []
+
+        def concrete(fn_names) -> dict:
+            vals = dec.sample([0.3, 1.5, 2.5, -0.5, 0.6], len(fn_names))
+            d = dict(zip(fn_names, vals))
+            if with_int:
+                d["axis_" + fn_names[0]] = 0
+            return d
+        self.observe += self.gen_call(m, rng, chain[-1], attr_values=concrete(level_names[-1]), inputs=[x] + extra) or []
+        if dec.random() < 0.4:  # a lower level is called directly as well
+            k = dec.randrange(depth - 1)
+            self.observe += self.gen_call(m, rng, chain[k], attr_values=concrete(level_names[k]), inputs=[x] + extra) or []
+
+    def plant_fn_scope_name_reuse(self, rng):
+        self._plant_fn_name_reuse(rng, formals=False)
+
+    def plant_fn_subgraph_formal_name_reuse(self, rng):
+        self._plant_fn_name_reuse(rng, formals=True)
+
+    def _plant_fn_name_reuse(self, rng, formals: bool):
+        """A function f(fx, c) whose body holds control flow (If / Loop / If in If, sometimes with a subgraph
+        initializer) that computes with its OWN values next to the captured formal input.  Functions are separate name
+        spaces, so the values defined inside f - in the nested bodies above all, but also at the top level of the
+        body and its formal inputs/outputs - reuse names that are in use where f is called: the actual argument,
+        the call's outputs, the condition, earlier and later main-graph values, graph inputs / initializers, a name
+        local to a sibling subgraph.  f is called from the main graph, from an If branch of the main graph, or
+        from another function g whose own names are reused as well (only g is called from the main graph).
+        ``formals``: the reused names go to what the nested bodies declare (Loop-body inputs, subgraph
+        initializers) instead of to the node outputs inside them."""
+        dec = random.Random(rng.random())  # variant decisions: independent of pool sizes
+        m = self.main
+        T = (F32, (2, 3))
+        kind = dec.choice(["loop", "loop", "if_init", "if_init", "loop_init"] if formals else ["if", "if", "loop", "if_if", "if_init"])
+        call_from = dec.choice(["main", "main", "main_branch", "fn"])
+
+        def inner_if(s, x, deep: bool, init: bool):
+            def then(b):
+                t = self.emit(b, dec.choice(["Neg", "Abs"]), [x], typed=True)[0]  # the branch's own value ...
+                o = self.emit(b, dec.choice(["Mul", "Sub"]), [t, x], typed=True)[0]  # ... next to the captured one
+                if init:
+                    w = self.add_init(b, rng, F32, dec.choice([(2, 3), (3,)]))
+                    o = self.emit(b, "Add", [o, w], typed=True)[0]
+                if deep:
+                    o = inner_if(b, o, False, False)
+                    o = self.emit(b, "Sub", [o, x], typed=True)[0]
+                return [o]
+
+            def other(b):
+                return [self.emit(b, "Relu", [x], typed=True)[0]]
+            hooks = [then, other] if dec.random() < 0.7 else [other, then]
+            return self.gen_if(s, rng, then_hook=hooks[0], else_hook=hooks[1], out_types=[T])[0]
+
+        def body(s):
+            x = s.inputs[0]
+            if dec.random() < 0.5:
+                x = self.emit(s, "Abs", [x])[0]  # a top-level value of the body that the nested bodies capture
+            if kind in ("loop", "loop_init"):
+                def loop_body(b, carried):
+                    t = self.emit(b, "Add", [carried, x], typed=True)[0]
+                    if kind == "loop_init":
+                        t = self.emit(b, "Sub", [t, self.add_init(b, rng, F32, dec.choice([(2, 3), (3,)]))], typed=True)[0]
+                    return self.emit(b, dec.choice(["Mul", "Sub"]), [t, x], typed=True)[0]
+                out = self.gen_loop(s, rng, body_hook=loop_body, v0=x)[0]
+            else:
+                out = inner_if(s, x, kind == "if_if", kind == "if_init")
+            return [self.emit(s, "Neg", [out])[0]] if dec.random() < 0.5 else [out]
+        f = self.gen_function(rng, in_types=[T, (BOOL, ())], with_attrs=False, body_hook=body)
+
+        g = None
+        if call_from == "fn":
+            def g_body(s):
+                a = self.emit(s, dec.choice(["Abs", "Neg"]), [s.inputs[0]])[0]
+                y = self.gen_call(s, rng, f, inputs=[a, s.inputs[1]])[0]
+                return [self.emit(s, "Add", [y, a])[0]]
+            g = self.gen_function(rng, in_types=[T, (BOOL, ())], with_attrs=False, body_hook=g_body)
+
+        # ---- the call site and the names around it
+        before = self.emit(m, "Relu", [self._x(rng)])[0]  # visible at the call site, not an argument
+        arg = self.emit(m, dec.choice(["Abs", "Neg"]), [self._x(rng)])[0]
+        cond = self.bool_scalar(m, rng)
+        target = g or f
+        call_out_names: list[str] = []
+        if call_from == "main_branch":
+            def calls(b):
+                made = self.gen_call(b, rng, target, inputs=[arg, cond], typed=True)
+                call_out_names.extend(t.v.name for t in made)
+                return [made[0]]
+            outs = self.gen_if(m, rng, then_hook=calls, out_types=[T])
+        else:
+            outs = self.gen_call(m, rng, target, inputs=[arg, cond]) or []
+            call_out_names.extend(t.v.name for t in outs)
+        self.observe += outs
+        after = self.emit(m, "Neg", [arg])[0]  # defined after the call
+        sibling = self.fresh("t")  # local to a later sibling subgraph of the main graph
+
+        def sib(b):
+            t = self.emit(b, "Relu", [arg], names=[sibling])[0]
+            return [self.emit(b, "Neg", [t], typed=True)[0]]
+        self.observe += self.gen_if(m, rng, then_hook=sib, out_types=[T])
+        self.observe.append(after)
+        pool = [before.v.name, after.v.name, cond.v.name, sibling] + call_out_names
+        pool += [t.v.name for t in dec.sample(m.inputs + m.inits, min(2, len(m.inputs + m.inits)))]
+
+        # ---- reuse them inside the functions: every name at most once per function (its scopes stay SSA)
+        def reuse(function: ir.Function, actual: str, names: list[str]) -> None:
+            nested, top = [], []
+            for sub in function.subgraphs():
+                if formals:
+                    nested += list(sub.inputs) + list(sub.initializers.values())
+                else:
+                    nested += [o for n in sub for o in n.outputs]
+            top += list(function.inputs) + [o for n in function for o in n.outputs]
+            names = list(dict.fromkeys(n for n in names if n and n != actual))
+            dec.shuffle(nested)
+            dec.shuffle(top)
+            chosen = nested[: dec.choice([1, 2, 3])] + [v for v in top if dec.random() < 0.4]
+            dec.shuffle(names)
+            # the key pattern first: something defined in a nested body is named like the actual argument
+            names.insert(0 if dec.random() < 0.75 else dec.randrange(len(names) + 1), actual)
+            for v, name in zip(chosen, names):
+                v.name = name
+        if g is not None:
+            reuse(g.function, arg.v.name, pool)
+            inner_arg = next(n for n in g.function if n.domain == f.domain and n.op_type == f.name).inputs[0]
+            reuse(f.function, inner_arg.name, [o.name for n in g.function for o in n.outputs] +
+                  [i.name for i in g.function.inputs] + pool)
+        else:
+            reuse(f.function, arg.v.name, pool)
+
     def plant_out_alias_input(self, rng):
         dec = random.Random(rng.random())  # variant decisions: independent of pool sizes
         ins = [t for t in self.main.inputs if t.dt != BOOL] or self.main.inputs
@@ -1259,7 +1496,8 @@ class _Builder:
         "identity_io_shadow", "identity_rename_shadow", "cse_rename_shadow", "identity_outer_branch", "identity_input_branch", "identity_in_branch", "captured_only", "const_in_branch",
         "subgraph_init", "sibling_init_name", "optional_io", "bn_training", "fn_alias", "fn_alias_branch",
         "fn_names_shadow", "fn_named_identity", "unused_node", "unused_fn", "unused_opset", "unused_init",
-        "near_dup_const_rank", "dup_init_is_input", "fn_called_from_subgraph", "out_alias_input", "out_init", "out_dup",
+        "near_dup_const_rank", "dup_init_is_input", "fn_called_from_subgraph",
+        "fn_attr_forward_renamed", "fn_scope_name_reuse", "fn_subgraph_formal_name_reuse", "out_alias_input", "out_init", "out_dup",
     ]
 
     def build(self) -> tuple[ir.Model, dict]:
@@ -1341,29 +1579,31 @@ class _Builder:
 # ============================================================================================
 # public generator API
 # ============================================================================================
-def choose_features(rng: random.Random) -> set[str]:
+def choose_features(rng: random.Random, extra: bool = False) -> set[str]:
     """The default random feature set (FEATURES probabilities), with evaluator-incompatible
     combinations removed: ORT cannot load a function whose output is one of its inputs and the
     reference evaluator cannot run overloads / attribute defaults, so these are not mixed."""
     feats = {f for f, p in FEATURES.items() if rng.random() < p}
     if feats & {"fn_alias", "fn_alias_branch"}:
         feats -= {"fn_overload", "fn_default_used"}
+    if extra:  # drawn after everything else: the draw of the default features is the same with and without
+        feats |= {f for f, p in EXTRA_FEATURES.items() if rng.random() < p}
     return feats
 
 
-def model_from_seed(seed: int, size: int = 10, features: Iterable[str] | None = None) -> tuple[ir.Model, dict]:
+def model_from_seed(seed: int, size: int = 10, features: Iterable[str] | None = None, extra: bool = False) -> tuple[ir.Model, dict]:
     """Deterministic: the same (seed, size, features) always gives the same model.  ``features=None``
     draws the feature set from the seed; a subset of a previous ``info["features"]`` regenerates the
     model without the other planted patterns (for shrinking)."""
-    feats = choose_features(random.Random(f"{seed}:features")) if features is None else set(features)
+    feats = choose_features(random.Random(f"{seed}:features"), extra) if features is None else set(features)
     return _Builder(seed, size, feats).build()
 
 
-def gen_model(rng: random.Random, size: int = 10, features: Iterable[str] | None = None) -> tuple[ir.Model, dict]:
+def gen_model(rng: random.Random, size: int = 10, features: Iterable[str] | None = None, extra: bool = False) -> tuple[ir.Model, dict]:
     """One candidate model (NOT yet validated - use ``gen_checked`` or ``admit``).  ``info`` carries
     ``seed``/``size``/``features`` (enough for ``model_from_seed``), what was planted, and flags
     ``has_subgraph``/``has_function``/``has_planted_duplicate``."""
-    return model_from_seed(rng.getrandbits(48), size, features)
+    return model_from_seed(rng.getrandbits(48), size, features, extra)
 
 
 # ============================================================================================
@@ -1712,11 +1952,12 @@ def admit(model: ir.Model, info: dict, inputs_rng: random.Random, k_inputs: int 
 
 
 def gen_checked(rng: random.Random, size: int = 10, features: Iterable[str] | None = None, k_inputs: int = 3,
-                max_tries: int = 6, rejected: Counter | None = None, evaluators: Sequence[str] = EVALUATORS) -> Case | None:
+                max_tries: int = 6, rejected: Counter | None = None, evaluators: Sequence[str] = EVALUATORS,
+                extra: bool = False) -> Case | None:
     """Generate candidates until one is admitted (see ``admit``); rejected candidates are counted by
     reason in ``rejected``.  None after ``max_tries`` rejections."""
     for _ in range(max_tries):
-        model, info = gen_model(rng, size, features)
+        model, info = gen_model(rng, size, features, extra)
         case, reason = admit(model, info, random.Random(f"{info['seed']}:inputs"), k_inputs, evaluators)
         if case is not None:
             return case
